@@ -694,6 +694,13 @@ func init() {
 
 				return
 			}
+			if caseNo%12 == 4 {
+				// ConnectionBind: wrong user / wrong id / repeated binds must neither succeed nor
+				// disturb the owner's own bind (RFC 6062 histories of C16)
+				runC16(t, rng, rec, tier, caseNo)
+
+				return
+			}
 			runC03A(t, rng, rec, tier, caseNo)
 		},
 	})
